@@ -263,6 +263,22 @@ def main(run):
                     {"kconfig": c["text"], "label": c["label"], "exception": "%s: %s" % (type(e).__name__, str(e)[:300])},
                     {"evaluation-exception", type(e).__name__},
                 )
+    # long but acyclic chains (each option depends on the previous one): nothing cyclic, nothing may raise
+    for n in (60, 120, 250, 400):
+        text = 'mainmenu "chain"\n\nconfig S0\n    bool "s0"\n    default y\n\n' + "".join('config S%d\n    bool "s%d"\n    depends on S%d\n    default y\n\n' % (i, i, i - 1) for i in range(1, n))
+        try:
+            k = kc.build(text, run.scratch)
+            k.syms["S%d" % (n - 1)].str_value
+            p_ = os.path.join(run.scratch, "c09_chain")
+            k.write_config(p_, save_old=False)
+            kc.reset_report(k)
+            evals += 1
+        except (Exception, RecursionError) as e:
+            run.report(
+                "an acyclic chain of %d options, each depending on the previous one, raised %s while %s" % (n, type(e).__name__, "evaluating the last option"),
+                {"chain_length": n, "exception": "%s: %s" % (type(e).__name__, str(e)[:200])},
+                {"evaluation-exception", type(e).__name__, "deep-chain"},
+            )
     run.add("evaluations", evals)
     run.cov["traces_validated_against_impl"] = len(cases) - len(bad)
     run.cov["distinct_nontrivial"] = loops
